@@ -74,8 +74,18 @@ class PathTable:
             def const_hook(name, mod=mod):
                 # module-level constants that are literal numbers / tuples of literals
                 sym = mod.symbols.get(name)
+                if sym and sym[0] != "const" and self.prog is not None:
+                    r = self.prog.resolve_name(mod, name)       # a constant imported from another module of the package
+                    if r and r[0] == "const":
+                        sym = ("const", r[1][0])
                 if sym and sym[0] == "const" and _is_literal(sym[1]):
                     return Translator().tr(sym[1])
+                if sym and sym[0] == "const" and _is_table(sym[1]):
+                    # a module-level lookup table with string keys: its entries (literals, function references, lambdas)
+                    try:
+                        return Translator().tr(sym[1])
+                    except AnalysisError:
+                        return None
                 return None
             T.symbol_hook = const_hook
 
@@ -344,6 +354,60 @@ def _is_literal(e: ast.AST) -> bool:
     return False
 
 
+def _is_table(e: ast.AST) -> bool:
+    if not isinstance(e, ast.Dict) or not e.keys:
+        return False
+    for k, v in zip(e.keys, e.values):
+        if not (isinstance(k, ast.Constant) and isinstance(k.value, str)):
+            return False
+        if not (isinstance(v, (ast.Constant, ast.Lambda, ast.Name, ast.Attribute)) or _is_literal(v)):
+            return False
+    return True
+
+
+NP_UNARY = {"log": sp.log, "exp": sp.exp, "sqrt": sp.sqrt, "abs": sp.Abs, "absolute": sp.Abs}
+KEYERROR = sp.Symbol("<KeyError>")
+
+
+def specialise(e, world):
+    """An expression under a finite assignment: table lookups with a now-literal key, calls of the function value found
+    there (lambdas are applied, numpy unary functions named) and conditional values are resolved."""
+    e = sp.sympify(e)
+    if isinstance(e, (sp.Eq, sp.Ne, sp.Gt, sp.Ge, sp.Lt, sp.Le)):
+        # keep relations unevaluated: sympy would decide `f(x) != True` structurally
+        return type(e)(specialise(e.lhs, world), specialise(e.rhs, world), evaluate=False)
+    if isinstance(e, (sp.And, sp.Or, sp.Not)):
+        return type(e)(*[specialise(a, world) for a in e.args], evaluate=False)
+    e = e.xreplace(world)
+    fn = lambda x: getattr(getattr(x, "func", None), "__name__", "")     # noqa: E731
+    for _ in range(12):
+        before = e
+
+        def step(x):
+            if fn(x) == "getitem" and fn(x.args[0]) == "dict" and getattr(x.args[1], "is_Symbol", False) and x.args[1].name.startswith("'"):
+                key = "kv_" + x.args[1].name.strip("'")
+                for a in x.args[0].args:
+                    if fn(a) == key:
+                        return a.args[0]
+                if all(fn(a).startswith("kv_") for a in x.args[0].args):
+                    return KEYERROR
+            if fn(x) == "call" and fn(x.args[0]) == "lambda_" and len(x.args[0].args[0]) == len(x.args) - 1:
+                params, body = x.args[0].args
+                return body.xreplace(dict(zip(params, x.args[1:])))
+            if fn(x) == "call" and getattr(x.args[0], "is_Symbol", False) and x.args[0].name.split(".")[0] in ("np", "numpy", "math") \
+                    and x.args[0].name.split(".")[-1] in NP_UNARY and len(x.args) == 2:
+                return NP_UNARY[x.args[0].name.split(".")[-1]](x.args[1])
+            if isinstance(x, sp.Piecewise):
+                r = pick(x, world)
+                if r is not None:
+                    return r
+            return x
+        e = e.replace(lambda x: fn(x) in ("getitem", "call") or isinstance(x, sp.Piecewise), step)
+        if e == before:
+            break
+    return e
+
+
 def _pt_rows(self, st: ast.For, T: Translator):
     """Rows of a loop over a short literal / module-constant sequence (or a zip with one), else None."""
     def literal(e):
@@ -501,6 +565,9 @@ def holds(lit, assign) -> Optional[bool]:
                 r = assign[key].name in names
                 return r if isinstance(lit, sp.Eq) else not r
             return None
+        if b == sp.true and getattr(a, "func", None) == sp.Function("truth") and getattr(a.args[0], "func", None) == sp.Function("in_"):
+            r = holds(sp.Eq(a.args[0], sp.true, evaluate=False), assign)
+            return None if r is None else (r if isinstance(lit, sp.Eq) else not r)
         if b == sp.true and getattr(a, "func", None) == sp.Function("truth"):
             inner = a.args[0]
             if isinstance(inner, (sp.Eq, sp.Ne)) or inner in (sp.true, sp.false):
